@@ -25,7 +25,35 @@
    over-approximation of the dll neighbours that nsync_dll_* writes, all records on the list operated on).
 
    The values written to `waiting`, `notified`, `waited`, `value` and the guards come from Gen/Sites.v.
-   No proofs in this file. *)
+   No proofs in this file.
+
+   ABSTRACTIONS OF THIS MODEL (each is part of the trusted base of C11 / C13(b); the three objects have their own
+   site-by-site models -- NoteModel, CounterModel, CvModel -- whose theorems are about the objects themselves):
+   (A1) counter_ready_time (counter.c:111-112) is ONE step, linearized at the acquire load of c->value: the preceding
+        `ATM_STORE (&c->waited, 1)` is folded into it.  Not modelled: the window between the store and the load.  Sound for the
+        C11 theorems because `waited` is read only by nsync_counter_add's ASSERT (A2) and never reset; the theorems use only
+        "waited is set once the step has been taken".
+   (A2) nsync_counter_add (counter.c:58-80) is ONE step, linearized at the CAS on c->value: the ASSERT's later load of c->waited
+        (counter.c:66) is evaluated in the state of the CAS.  Absent from the model: the interleaving
+        [CAS 0 -> delta] ; [another thread's counter_ready_time stores waited] ; [ASSERT loads waited = 1 -> abort],
+        in which C panics and the model does not (the model panics iff waited was set BEFORE the CAS).  Incrementing a counter
+        from zero while somebody may wait on it is a misuse of the API either way; the lock-step replay would report the
+        difference as a trace that ends inside nsync_counter_add.
+   (A3) nsync_note_notified_deadline_ (note.c:161-175) is ONE step: the acquire load of n->notified, the note_mu critical
+        section reading NOTIFIED_TIME, the clock read and notify (n) are folded at the step's linearization point (the store of
+        n->notified if it notifies, the last load otherwise).  Sound because n->notified is monotone (0 -> 1 once), the expiry
+        time is immutable in this model (no parent/child notes here: NoteModel has them) and the clock only advances, so
+        the value computed from the earlier reads (NOTIFIED_TIME under note_mu, then nsync_time_now) is still a correct
+        answer at the linearization point.  Absent: the interleavings in which another thread acts between those reads.
+   (A4) every critical section under note_mu / counter_mu / the cv spinlock is one step (the locks' mutual exclusion is C01);
+        the sleeps inside those nsync_mu_lock calls use the SAME per-thread semaphore as nsync_wait_n: their late posts are the
+        environment step OpStale.
+   (A5) the caller's semaphore is a counter: P's futex protocol is SemModel's (C12).  nsync_waiter_new_/free_ and malloc are
+        not modelled beyond the PFree step (malloc never fails here; wait.c does not check its result -- DESIGN, C11 "Limits").
+   (A6) p_nw->sem: every record's `sem` field is written once (wait.c:52) with the address of its owner's semaphore, so the
+        value wake_waiters reads from the record is `owner r`.  The READ is part of the PWake step (cv.c:142, before the
+        release store of `waiting`, footprint r :: rest); its value is carried in the pc (PWakeV (owner r)); the PWakeV step
+        (cv.c:147) uses only the pc and touches no record. *)
 From NsyncBase Require Import CSem.
 From NsyncGen Require Import Consts Sites.
 From Coq Require Import List ZArith Bool Arith.
@@ -88,8 +116,10 @@ Inductive pc :=
 | PFree                            (* wait.c:92: free (nw) *)
 | PLock                            (* wait.c:96: the call of lock (mu) *)
 | PRet                             (* wait.c:100 *)
-| PWake                            (* wake_waiters' final loop: next is the store waiting := 0 into the head of to_wake_list *)
-| PWakeV (s : nat)                 (* nsync_mu_semaphore_v (p_sem), p_sem = thread s's semaphore, read before the store *)
+| PWake                            (* wake_waiters' final loop (cv.c:138-146): p_sem = p_nw->sem; next; remove; then the site
+                                      ATM_STORE_REL (&p_nw->waiting, 0) on the head of to_wake_list *)
+| PWakeV (s : nat)                 (* cv.c:147 nsync_mu_semaphore_v (p_sem): s is the VALUE of p_sem (whose semaphore), which the PWake
+                                      step read from the record and handed over in this pc; the record is not accessed again *)
 | PPanic.                          (* an ASSERT of counter.c failed *)
 
 Inductive pres := POk | PTimeout | PBlocked.
@@ -117,6 +147,7 @@ Record frame := mk_f {
   f_unlocked : bool;
   f_idx_ready : bool;       (* ghost: the object selected by `ready = j` was ready in the state in which that was decided *)
   f_dl_seen : bool;         (* ghost: at a step of this call that tested it, clock >= abs_deadline *)
+  f_held : bool;            (* ghost: mu != NULL and the caller held mu when it called nsync_wait_n (the precondition of the API) *)
   f_log : list ev }.        (* ghost: the events of this call's steps, newest first *)
 Record tstate := mk_t {
   pc_ : pc; prog : list op; fr : frame;
@@ -169,20 +200,20 @@ Definition with_fr (s : tstate) (f : frame) := mk_t (pc_ s) (prog s) f (done s) 
 Definition with_prog (s : tstate) (p : list op) := mk_t (pc_ s) p (fr s) (done s) (results s).
 Definition lg (e : ev) (s : tstate) : tstate :=
   let f := fr s in
-  with_fr s (mk_f (f_mu f) (f_dl f) (f_objs f) (f_ready f) (f_i f) (f_unlocked f) (f_idx_ready f) (f_dl_seen f) (e :: f_log f)).
+  with_fr s (mk_f (f_mu f) (f_dl f) (f_objs f) (f_ready f) (f_i f) (f_unlocked f) (f_idx_ready f) (f_dl_seen f) (f_held f) (e :: f_log f)).
 Definition set_ready (s : tstate) (j : nat) (objective : bool) : tstate :=
   let f := fr s in
-  with_fr s (mk_f (f_mu f) (f_dl f) (f_objs f) j (f_i f) (f_unlocked f) objective (f_dl_seen f) (f_log f)).
+  with_fr s (mk_f (f_mu f) (f_dl f) (f_objs f) j (f_i f) (f_unlocked f) objective (f_dl_seen f) (f_held f) (f_log f)).
 Definition set_i (s : tstate) (i : nat) : tstate :=
   let f := fr s in
-  with_fr s (mk_f (f_mu f) (f_dl f) (f_objs f) (f_ready f) i (f_unlocked f) (f_idx_ready f) (f_dl_seen f) (f_log f)).
+  with_fr s (mk_f (f_mu f) (f_dl f) (f_objs f) (f_ready f) i (f_unlocked f) (f_idx_ready f) (f_dl_seen f) (f_held f) (f_log f)).
 Definition set_unlocked (s : tstate) : tstate :=
   let f := fr s in
-  with_fr s (mk_f (f_mu f) (f_dl f) (f_objs f) (f_ready f) (f_i f) true (f_idx_ready f) (f_dl_seen f) (f_log f)).
+  with_fr s (mk_f (f_mu f) (f_dl f) (f_objs f) (f_ready f) (f_i f) true (f_idx_ready f) (f_dl_seen f) (f_held f) (f_log f)).
 Definition see_dl (s : tstate) (clk : Z) : tstate :=
   let f := fr s in
   with_fr s (mk_f (f_mu f) (f_dl f) (f_objs f) (f_ready f) (f_i f) (f_unlocked f) (f_idx_ready f)
-                  (f_dl_seen f || time_reached (f_dl f) clk) (f_log f)).
+                  (f_dl_seen f || time_reached (f_dl f) clk) (f_held f) (f_log f)).
 
 Definition count (s : tstate) : nat := length (f_objs (fr s)).
 Definition objat (s : tstate) (j : nat) : oref := nth j (f_objs (fr s)) (ONote 0).
@@ -285,8 +316,8 @@ Definition after_deq (w1 : world) (t : nat) (s : tstate) (j : nat) (r : bool) : 
             then set_ready s j (obj_ready_now w1 (objat s j) (rec_of t s j)) else s in
   if (S j =? f_i (fr s1))%nat then after_deqs s1 else goto_deq s1 (S j).
 
-Definition new_frame (mu : option nat) (dl : time) (os : list oref) : frame :=
-  mk_f mu dl os (length os) 0 false false false [EvCall].
+Definition new_frame (mu : option nat) (dl : time) (os : list oref) (held : bool) : frame :=
+  mk_f mu dl os (length os) 0 false false false held [EvCall].
 
 (* nsync_counter_add (c, delta), delta <> 0: one critical section of counter_mu.  None = an ASSERT fails. *)
 Definition ctr_add (w : world) (n : nat) (delta : Z) : option (world * Z) :=
@@ -302,8 +333,8 @@ Definition ctr_add (w : world) (n : nat) (delta : Z) : option (world * Z) :=
   else None.
 
 (* the thread-local continuation of each kind of step, given what the object function returned *)
-Definition ctl_call (s : tstate) (mu : option nat) (dl : time) (os : list oref) (rest : list op) (clk : Z) : tstate :=
-  let s1 := mk_t PIdle rest (new_frame mu dl os) (done s) (results s) in
+Definition ctl_call (s : tstate) (mu : option nat) (dl : time) (os : list oref) (rest : list op) (clk : Z) (held : bool) : tstate :=
+  let s1 := mk_t PIdle rest (new_frame mu dl os held) (done s) (results s) in
   if (length os =? 0)%nat then after_first s1 clk else with_pc s1 (PFirst 0).
 Definition ctl_first (s : tstate) (j : nat) (nt : time) (objective : bool) (clk : Z) : tstate :=
   let s1 := lg (EvReady true j nt) s in
@@ -333,6 +364,10 @@ Definition ctl_lock (s : tstate) : tstate := with_pc (lg (EvLock true) s) PRet.
 Definition ctl_ret (s : tstate) : tstate :=
   let r := f_ready (fr s) in mk_t PIdle (prog s) (fr (lg (EvRet r) s)) (S (done s)) (r :: results s).
 
+(* ghost: the caller holds the mutex it passes *)
+Definition holds (w : world) (mu : option nat) (t : nat) : bool :=
+  match mu with Some m => match muh w m with Some h => Nat.eqb h t | None => false end | None => false end.
+
 (* One step of thread t.  `timeout` is used only at PSleep: the environment lets the timed P time out
    (honoured only if clock >= min_ntime).  Result: new world, event, records touched. *)
 Definition step (w : world) (t : nat) (timeout : bool) : world * ev * list rid :=
@@ -342,7 +377,7 @@ Definition step (w : world) (t : nat) (timeout : bool) : world * ev * list rid :
       match prog s with
       | [] => (w, EvNone, [])
       | OpWaitN mu dl os :: rest =>
-          (set_thr w t (ctl_call s mu dl os rest (clock w)), EvCall, [])
+          (set_thr w t (ctl_call s mu dl os rest (clock w) (holds w mu t)), EvCall, [])
       | OpNotify n :: rest =>
           let '(w1, nt) := note_deadline w n in
           let w2 := if time_pos nt then note_do_notify w1 n else w1 in
@@ -464,7 +499,7 @@ Definition do_act (w : world) (a : act) : world * ev * list rid :=
 Definition next (w : world) (a : act) : world := fst (fst (do_act w a)).
 Definition run (w : world) (sched : list act) : world := fold_left next sched w.
 
-Definition idle_t (p : list op) : tstate := mk_t PIdle p (new_frame None None []) 0 [].
+Definition idle_t (p : list op) : tstate := mk_t PIdle p (new_frame None None [] false) 0 [].
 Definition init (nts : nat -> note_st) (cts : nat -> ctr_st) (progs : nat -> list op) (clock0 : Z) : world :=
   mk_w clock0 nts cts (fun _ => []) (fun _ => 0) (fun _ => 0%nat) (fun _ => None) (fun _ => None) (fun _ => false) (fun _ => [])
        (fun t => idle_t (progs t)).
@@ -502,3 +537,35 @@ Definition mutex_ok (good : nat -> bool -> Prop) (cnt : nat) (l : list ev) : Pro
                 has_lock (after_unlock l) = true                (* the lock callback ran after it *)
   | None => has_lock l = false                                  (* no unlock: no lock *)
   end.
+
+(* ---------- state form of the mutex clause ---------- *)
+Definition has_p (l : list ev) : bool := existsb (fun e => match e with EvP _ => true | _ => false end) l.
+Definition enq_idx (l : list ev) : list nat := map fst (enq_res l).      (* indices of the enqueue calls, newest first *)
+(* the unlock callback is older than every P of the call and newer than the enqueue calls of ALL indices 0..cnt-1 (in order);
+   without an unlock callback there is no P at all *)
+Definition mutex_order (cnt : nat) (l : list ev) : Prop :=
+  match before_unlock l with
+  | Some pre => enq_idx pre = rev (seq 0 cnt) /\ has_p pre = false
+  | None => has_p l = false
+  end.
+
+(* ---------- the sleep deadline ---------- *)
+Definition time_le (a b : time) : bool := negb (time_lt b a).
+Definition tmin (nt mn : time) : time := if time_lt nt mn then nt else mn.
+(* the ready-time reads of the current round of wait.c:67-74: the newest entries of the log, up to the first other event *)
+Fixpoint round (l : list ev) : list (nat * time) :=
+  match l with EvReady false j nt :: l' => (j, nt) :: round l' | _ => [] end.
+Definition rmin (dl : time) (l : list ev) : time := fold_right (fun p m => tmin (snd p) m) dl (round l).
+
+(* ---------- readiness of an object as a predicate of the WORLD (not of what ready_time / dequeue computed) ---------- *)
+Definition obj_ready_world (w : world) (o : oref) (r : rid) : Prop :=
+  match o with
+  | ONote n => znz (n_notified (notes w n)) = true \/ time_reached (n_expiry (notes w n)) (clock w) = true
+  | OCounter n => c_value (ctrs w n) = 0
+  | OCv _ => exists u, taker w r = Some u
+  end.
+
+(* ---------- what a call that returns `count` has examined ---------- *)
+Definition has_first (l : list ev) (k : nat) : Prop := exists nt, In (EvReady true k nt) l /\ time_pos nt = true.
+Definition has_deq (l : list ev) (j : nat) : Prop := exists r onl, In (EvDeq j r onl) l.
+Definition only_first (l : list ev) : Prop := forall e, In e l -> e = EvCall \/ exists j nt, e = EvReady true j nt.
